@@ -246,3 +246,18 @@ PROPS["C18"] = dict(
     rule="BFS; a state is distinct when the snapshot or the reference record differs",
     assumptions=RT_ASSUME[:2],
 )
+
+PROPS["C03"] = dict(
+    level="model_checking", engine="mcx", title="any sequence of API calls on a live instance is memory-safe and terminates",
+    technique="explicit-state model checking of the whole exported C API (BFS by history replay under AddressSanitizer with annotated vectors and strict bounds): every exported function with boundary-valued arguments from 7 start states; deeper levels on an out-of-range real-time subset and on the real emulator cores",
+    level_text="Every sequence of up to D calls over ~400 boundary-valued operation instances covering all 90 exported functions (the op table is checked against include/opnmidi.h on every run), from 7 start states, is executed on the library. "
+               "Oracle: no sanitizer report, fatal signal, abort or uncaught exception, every call inside its CPU budget, and calls documented to fail (bad chip count, emulator, device id, bank id, indices, negative sizes, unsupported formats, malformed files, NULL device) return their error value.",
+    level_note="the statement's 400-call horizon is not reached: what is claimed is every sequence up to the completed depth from each start state; pointers other than the device always reference valid, exactly sized objects (malloc'ed at the request size so that ASan red zones sit directly behind them); NDEBUG build as shipped",
+    legs=[
+        Leg("api", ["models/c03_api.cpp"], "asan", ["--depth", "2"], ["--depth", "2"], timeout_thorough=14000),
+        Leg("rtbig", ["models/c03_api.cpp"], "asan", ["--subset", "rtbig", "--depth", "3"], ["--subset", "rtbig", "--depth", "4"], timeout_thorough=14000),
+        Leg("cores", ["models/c03_api.cpp"], "asan", ["--subset", "cores", "--depth", "2"], ["--subset", "cores", "--depth", "3"], timeout_thorough=14000),
+    ],
+    rule="BFS; state = full player + sequencer snapshot; the 'api' leg uses null chips, the 'cores' leg the real emulator cores",
+    assumptions=RT_ASSUME[:2] + ["CPU budget 60 s per call (ITIMER_PROF); a worker death is attributed to the announced call and confirmed by replaying that history alone"],
+)
